@@ -90,9 +90,46 @@ Theorem C05_chain_holds_float : forall n (eps : float) dist prio,
 Proof. exact (fun n eps dist prio Hn Hs => @chain_code_model FloatNum n eps dist prio Hn Hs float_total_preorder). Qed.
 Print Assumptions C05_chain_holds_float.
 
-(* non-vacuity: a real symmetric curve ([[0,3],[1,1],[2,2],[3,2],[4,1],[5,3]], shortest distance, triangle order) with tied
-   priorities; tables = the library's primitives, outs = what rdp.rdp_fixed returned for k = 0..7.  The model reproduces the
-   chain (agree = 0) and the predicate holds (0); the shape and order hypotheses are satisfied (checked inside judge). *)
+(* the stated ordering scores: triangle = 0.5 * chord * max(configured distance), area = pairwise sum of the configured
+   distances, segment = fit residual (Model/RdpFixed.v prio_derived).  The theorems are generic in `prio`, hence hold for it. *)
+Theorem C05_fixed_greedy_derived : forall (N : Num) n (eps : T N) dist ord chord resid,
+  2 <= n -> (forall l r, l + 3 <= r -> r <= n -> length (dist l r) = r - l) ->
+  forall fuel k,
+  TotalPreorderOn (@notnan N) -> notnan (@zero N) ->
+  (forall j a b, In (a, b) (adj_pairs (red_of (rdp_fixed n eps dist (prio_derived ord chord resid dist) fuel j))) -> a + 2 <= b ->
+                 notnan (prio_derived ord chord resid dist a (b + 1))) ->
+  n <= fuel -> 2 <= k -> k < n ->
+  exists red a b,
+    rdp_fixed n eps dist (prio_derived ord chord resid dist) fuel k = Some (red, rows red) /\ In (a, b) (adj_pairs red) /\ a + 2 <= b /\
+    rdp_fixed n eps dist (prio_derived ord chord resid dist) fuel (k + 1) =
+      Some (insert_nat (a + split_guarded eps (dist a (b + 1))) red,
+            rows (insert_nat (a + split_guarded eps (dist a (b + 1))) red)) /\
+    forall a' b', In (a', b') (adj_pairs red) -> a' + 2 <= b' ->
+      (a' = a /\ b' = b) \/ prio_derived ord chord resid dist a' (b' + 1) <=?! prio_derived ord chord resid dist a (b + 1) = true.
+Proof. exact (fun N n eps dist ord chord resid => @fixed_greedy N n eps dist (prio_derived ord chord resid dist)). Qed.
+Print Assumptions C05_fixed_greedy_derived.
+
+Theorem C05_chain_holds_derived_float : forall n (eps : float) dist ord chord resid,
+  2 <= n -> (forall l r, l + 3 <= r -> r <= n -> length (dist l r) = r - l) ->
+  forall fuel ordered, n <= fuel ->
+  (ordered = true ->
+   @notnan FloatNum (@zero FloatNum) /\
+   forall j a b, In (a, b) (adj_pairs (red_of (@rdp_fixed FloatNum n eps dist (@prio_derived FloatNum ord chord resid dist) fuel j))) ->
+                 a + 2 <= b -> @notnan FloatNum (@prio_derived FloatNum ord chord resid dist a (b + 1))) ->
+  @chain_code FloatNum n eps dist (@prio_derived FloatNum ord chord resid dist) ordered
+     (map (@rdp_fixed FloatNum n eps dist (@prio_derived FloatNum ord chord resid dist) fuel) (seq 0 (n + 2))) = 0.
+Proof. exact (fun n eps dist ord chord resid Hn Hs =>
+               @chain_code_model FloatNum n eps dist (@prio_derived FloatNum ord chord resid dist) Hn Hs float_total_preorder). Qed.
+Print Assumptions C05_chain_holds_derived_float.
+
+(* non-vacuity: real curves (shortest distance, triangle order); tables = the library's primitives (configured distance, chord
+   lengths), scores DERIVED in Coq, ot = what rdp.order_triangle returned for the splits, outs = what rdp.rdp_fixed returned for
+   k = 0..7.  judge = 0: the model with derived priorities reproduces the chain, the predicate holds, the returned scores are the
+   stated ones bit-for-bit.  First: symmetric with tied priorities; second: the jagged curve y = 4,6,0,1,0,4, on which points
+   project outside chords (shortest <> perpendicular distance). *)
 Example C05_example :
-  judge (CChain 6%nat [((0%nat, 3%nat), [0x0.0p+0%float; 0x1.5775c544ff263p+0%float; 0x0.0p+0%float]); ((0%nat, 4%nat), [0x0.0p+0%float; 0x1.94c583ada5b52p+0%float; 0x1.43d136248490ep-2%float; 0x0.0p+0%float]); ((0%nat, 5%nat), [0x0.0p+0%float; 0x1.5775c544ff263p+0%float; 0x0.0p+0%float; 0x1.c9f25c5bfeddap-2%float; 0x0.0p+0%float]); ((0%nat, 6%nat), [0x0.0p+0%float; 0x1.0000000000000p+1%float; 0x1.0000000000000p+0%float; 0x1.0000000000000p+0%float; 0x1.0000000000000p+1%float; 0x0.0p+0%float]); ((1%nat, 4%nat), [0x0.0p+0%float; 0x1.c9f25c5bfedd9p-2%float; 0x0.0p+0%float]); ((1%nat, 5%nat), [0x0.0p+0%float; 0x1.0000000000000p+0%float; 0x1.0000000000000p+0%float; 0x0.0p+0%float]); ((1%nat, 6%nat), [0x0.0p+0%float; 0x1.c9f25c5bfedd9p-2%float; 0x0.0p+0%float; 0x1.5775c544ff263p+0%float; 0x0.0p+0%float]); ((2%nat, 5%nat), [0x0.0p+0%float; 0x1.c9f25c5bfedd9p-2%float; 0x0.0p+0%float]); ((2%nat, 6%nat), [0x0.0p+0%float; 0x1.43d136248490fp-2%float; 0x1.94c583ada5b52p+0%float; 0x0.0p+0%float]); ((3%nat, 6%nat), [0x0.0p+0%float; 0x1.5775c544ff263p+0%float; 0x0.0p+0%float])] [((0%nat, 3%nat), 0x1.8000000000000p+0%float); ((0%nat, 4%nat), 0x1.4000000000000p+1%float); ((0%nat, 5%nat), 0x1.8000000000000p+1%float); ((1%nat, 4%nat), 0x1.0000000000000p-1%float); ((1%nat, 5%nat), 0x1.8000000000000p+0%float); ((1%nat, 6%nat), 0x1.8000000000000p+1%float); ((2%nat, 5%nat), 0x1.0000000000000p-1%float); ((2%nat, 6%nat), 0x1.4000000000000p+1%float); ((3%nat, 6%nat), 0x1.8000000000000p+0%float)] [(Some ([0%nat; 5%nat], [(0%nat, 4%nat)])); (Some ([0%nat; 5%nat], [(0%nat, 4%nat)])); (Some ([0%nat; 5%nat], [(0%nat, 4%nat)])); (Some ([0%nat; 1%nat; 5%nat], [(0%nat, 0%nat); (1%nat, 3%nat)])); (Some ([0%nat; 1%nat; 4%nat; 5%nat], [(0%nat, 0%nat); (1%nat, 2%nat); (4%nat, 0%nat)])); (Some ([0%nat; 1%nat; 2%nat; 4%nat; 5%nat], [(0%nat, 0%nat); (1%nat, 0%nat); (2%nat, 1%nat); (4%nat, 0%nat)])); (Some ([0%nat; 1%nat; 2%nat; 3%nat; 4%nat; 5%nat], [(0%nat, 0%nat); (1%nat, 0%nat); (2%nat, 0%nat); (3%nat, 0%nat); (4%nat, 0%nat)])); (Some ([0%nat; 1%nat; 2%nat; 3%nat; 4%nat; 5%nat], [(0%nat, 0%nat); (1%nat, 0%nat); (2%nat, 0%nat); (3%nat, 0%nat); (4%nat, 0%nat)]))]) = 0%Z.
+  judge (CChain 6%nat OTriangle [((0%nat, 3%nat), [0x0.0p+0%float; 0x1.5775c544ff263p+0%float; 0x0.0p+0%float]); ((0%nat, 4%nat), [0x0.0p+0%float; 0x1.94c583ada5b52p+0%float; 0x1.43d136248490ep-2%float; 0x0.0p+0%float]); ((0%nat, 5%nat), [0x0.0p+0%float; 0x1.5775c544ff263p+0%float; 0x0.0p+0%float; 0x1.c9f25c5bfeddap-2%float; 0x0.0p+0%float]); ((0%nat, 6%nat), [0x0.0p+0%float; 0x1.0000000000000p+1%float; 0x1.0000000000000p+0%float; 0x1.0000000000000p+0%float; 0x1.0000000000000p+1%float; 0x0.0p+0%float]); ((1%nat, 4%nat), [0x0.0p+0%float; 0x1.c9f25c5bfedd9p-2%float; 0x0.0p+0%float]); ((1%nat, 5%nat), [0x0.0p+0%float; 0x1.0000000000000p+0%float; 0x1.0000000000000p+0%float; 0x0.0p+0%float]); ((1%nat, 6%nat), [0x0.0p+0%float; 0x1.c9f25c5bfedd9p-2%float; 0x0.0p+0%float; 0x1.5775c544ff263p+0%float; 0x0.0p+0%float]); ((2%nat, 5%nat), [0x0.0p+0%float; 0x1.c9f25c5bfedd9p-2%float; 0x0.0p+0%float]); ((2%nat, 6%nat), [0x0.0p+0%float; 0x1.43d136248490fp-2%float; 0x1.94c583ada5b52p+0%float; 0x0.0p+0%float]); ((3%nat, 6%nat), [0x0.0p+0%float; 0x1.5775c544ff263p+0%float; 0x0.0p+0%float])] [((0%nat, 3%nat), 0x1.1e3779b97f4a8p+1%float); ((0%nat, 4%nat), 0x1.94c583ada5b53p+1%float); ((0%nat, 5%nat), 0x1.1e3779b97f4a8p+2%float); ((1%nat, 4%nat), 0x1.1e3779b97f4a8p+1%float); ((1%nat, 5%nat), 0x1.8000000000000p+1%float); ((1%nat, 6%nat), 0x1.1e3779b97f4a8p+2%float); ((2%nat, 5%nat), 0x1.1e3779b97f4a8p+1%float); ((2%nat, 6%nat), 0x1.94c583ada5b53p+1%float); ((3%nat, 6%nat), 0x1.1e3779b97f4a8p+1%float)] [] [((1%nat, 6%nat), 0x1.8000000000000p+1%float); ((1%nat, 5%nat), 0x1.8000000000000p+0%float); ((2%nat, 5%nat), 0x1.0000000000000p-1%float)] [(Some ([0%nat; 5%nat], [(0%nat, 4%nat)])); (Some ([0%nat; 5%nat], [(0%nat, 4%nat)])); (Some ([0%nat; 5%nat], [(0%nat, 4%nat)])); (Some ([0%nat; 1%nat; 5%nat], [(0%nat, 0%nat); (1%nat, 3%nat)])); (Some ([0%nat; 1%nat; 4%nat; 5%nat], [(0%nat, 0%nat); (1%nat, 2%nat); (4%nat, 0%nat)])); (Some ([0%nat; 1%nat; 2%nat; 4%nat; 5%nat], [(0%nat, 0%nat); (1%nat, 0%nat); (2%nat, 1%nat); (4%nat, 0%nat)])); (Some ([0%nat; 1%nat; 2%nat; 3%nat; 4%nat; 5%nat], [(0%nat, 0%nat); (1%nat, 0%nat); (2%nat, 0%nat); (3%nat, 0%nat); (4%nat, 0%nat)])); (Some ([0%nat; 1%nat; 2%nat; 3%nat; 4%nat; 5%nat], [(0%nat, 0%nat); (1%nat, 0%nat); (2%nat, 0%nat); (3%nat, 0%nat); (4%nat, 0%nat)]))]) = 0%Z.
+Proof. vm_compute. reflexivity. Qed.
+Example C05_example_jagged :
+  judge (CChain 6%nat OTriangle [((0%nat, 3%nat), [0x0.0p+0%float; 0x1.1e3779b97f4a8p+1%float; 0x0.0p+0%float]); ((0%nat, 4%nat), [0x0.0p+0%float; 0x1.1e3779b97f4a8p+1%float; 0x1.6a09e667f3bcdp+0%float; 0x0.0p+0%float]); ((0%nat, 5%nat), [0x0.0p+0%float; 0x1.1e3779b97f4a7p+1%float; 0x1.6a09e667f3bccp+0%float; 0x0.0p+0%float; 0x0.0p+0%float]); ((0%nat, 6%nat), [0x0.0p+0%float; 0x1.0000000000000p+1%float; 0x1.0000000000000p+2%float; 0x1.8000000000000p+1%float; 0x1.0000000000000p+2%float; 0x0.0p+0%float]); ((1%nat, 4%nat), [0x0.0p+0%float; 0x1.6a09e667f3bccp+0%float; 0x1.0000000000000p-52%float]); ((1%nat, 5%nat), [0x0.0p+0%float; 0x1.c9f25c5bfeddap+0%float; 0x1.c9f25c5bfeddcp-2%float; 0x0.0p+0%float]); ((1%nat, 6%nat), [0x0.0p+0%float; 0x1.3ad69f7f3f385p+2%float; 0x1.c9f25c5bfeddap+1%float; 0x1.07e0f66afed07p+2%float; 0x0.0p+0%float]); ((2%nat, 5%nat), [0x0.0p+0%float; 0x1.0000000000000p+0%float; 0x0.0p+0%float]); ((2%nat, 6%nat), [0x0.0p+0%float; 0x1.999999999999cp-3%float; 0x1.999999999999ap+0%float; 0x1.0000000000000p-51%float]); ((3%nat, 6%nat), [0x0.0p+0%float; 0x1.6a09e667f3bcdp+0%float; 0x0.0p+0%float])] [((0%nat, 3%nat), 0x1.1e3779b97f4a8p+2%float); ((0%nat, 4%nat), 0x1.0f876ccdf6cd9p+2%float); ((0%nat, 5%nat), 0x1.6a09e667f3bcdp+2%float); ((1%nat, 4%nat), 0x1.58a68a4a8d9f3p+2%float); ((1%nat, 5%nat), 0x1.ad5336963eefcp+2%float); ((1%nat, 6%nat), 0x1.1e3779b97f4a8p+2%float); ((2%nat, 5%nat), 0x1.0000000000000p+1%float); ((2%nat, 6%nat), 0x1.4000000000000p+2%float); ((3%nat, 6%nat), 0x1.cd82b446159f3p+1%float)] [] [((0%nat, 3%nat), 0x1.4000000000001p+2%float); ((2%nat, 6%nat), 0x1.0000000000000p+2%float); ((2%nat, 5%nat), 0x1.0000000000000p+0%float)] [(Some ([0%nat; 5%nat], [(0%nat, 4%nat)])); (Some ([0%nat; 5%nat], [(0%nat, 4%nat)])); (Some ([0%nat; 5%nat], [(0%nat, 4%nat)])); (Some ([0%nat; 2%nat; 5%nat], [(0%nat, 1%nat); (2%nat, 2%nat)])); (Some ([0%nat; 1%nat; 2%nat; 5%nat], [(0%nat, 0%nat); (1%nat, 0%nat); (2%nat, 2%nat)])); (Some ([0%nat; 1%nat; 2%nat; 4%nat; 5%nat], [(0%nat, 0%nat); (1%nat, 0%nat); (2%nat, 1%nat); (4%nat, 0%nat)])); (Some ([0%nat; 1%nat; 2%nat; 3%nat; 4%nat; 5%nat], [(0%nat, 0%nat); (1%nat, 0%nat); (2%nat, 0%nat); (3%nat, 0%nat); (4%nat, 0%nat)])); (Some ([0%nat; 1%nat; 2%nat; 3%nat; 4%nat; 5%nat], [(0%nat, 0%nat); (1%nat, 0%nat); (2%nat, 0%nat); (3%nat, 0%nat); (4%nat, 0%nat)]))]) = 0%Z.
 Proof. vm_compute. reflexivity. Qed.
